@@ -230,6 +230,21 @@ fn c18_residual_new_consistent() {
 }
 
 //@ prop: C18
+//@ also: C08
+//@ drives: Residual::new, Residual::from_parts, Residual::verify, find_max, wrapping_sum
+//@ bound: partition order / block size / warm-up length free over all of usize; slice lengths (Rice parameters, quotients, remainders) = (2,4,4): the consistent shape with TWO partitions (warm-up lengths 0..=4 against a first partition of 2 samples); every parameter, quotient and remainder value
+//@ asserts: as c18_residual_new_consistent (in particular: an accepted warm-up lies within the first partition, which is what count_bits() and the parser assume)
+//@ stubs: alloc::fmt::format -> empty string
+#[kani::proof]
+#[kani::unwind(70)]
+#[kani::stub(alloc::fmt::format, fmt_stub)]
+fn c18_residual_new_two_partitions() {
+    let ok = residual_new_case::<2, 4, 4>();
+    kani::cover!(ok);
+    kani::cover!(!ok);
+}
+
+//@ prop: C18
 //@ cover: none
 //@ drives: Residual::new, Residual::from_parts, Residual::verify, find_max, wrapping_sum
 //@ bound: partition order / block size / warm-up length free over all of usize; slice lengths (Rice parameters, quotients, remainders) = (2,2,4) or (1,4,2): quotient/remainder lengths disagree; every parameter, quotient and remainder value
